@@ -304,6 +304,10 @@ def _program_slice(ctx, n_quick, depth=2):
     return progs, idx
 
 
+def _every(idx, k):
+    return idx[::k]
+
+
 def fam_lowers_observed(ctx):
     """T3: every (class, newly created class) pair observed in a real `_lower` call is in the generated
     table; no `_lower` result embeds the expression being lowered."""
@@ -315,6 +319,8 @@ def fam_lowers_observed(ctx):
     idx_of = {n: i for i, n in enumerate(names)}
     store = collections.Counter()
     progs, idx = _program_slice(ctx, 150)
+    if not ctx.quick:
+        idx = _every(idx, 4)
     nprog = 0
     with observed_lowers(store):
         for i in idx:
@@ -597,12 +603,16 @@ def _cases(ctx, broken):
     layouts = [([0, 3, 6, 8], [0, 2, 6]), ([0, 8], [0, 6]), ([0, 2, 4, 6, 8], [0, 2, 4, 6])]
     cases = []
     for j, i in enumerate(idx):
-        cl, cr = layouts[j % len(layouts)] if ctx.quick else layouts[0]
+        cl, cr = layouts[j % len(layouts)]
         cases.append({"kind": "program", "program": progs[i].name, "depth": 2, "cutsL": cl, "cutsR": cr, "known": j % 4 != 0})
-        if not ctx.quick:
-            for cl, cr in layouts[1:]:
-                cases.append({"kind": "program", "program": progs[i].name, "depth": 2, "cutsL": cl, "cutsR": cr, "known": True})
     return cases
+
+
+def _safe_program_case(case):
+    try:
+        return run_program_case(case)
+    except Exception as e:  # noqa: BLE001
+        return f"harness could not run the case: {type(e).__name__}: {str(e)[:200]}", None
 
 
 def support(ctx, broken):
@@ -610,27 +620,35 @@ def support(ctx, broken):
     cases = _cases(ctx, broken)
     hist = {k: collections.Counter() for k in BUDGET}
     same_twice = collections.Counter()
-    for case in cases:
-        try:
-            msg, stats = run_program_case(case)
-        except Exception as e:  # noqa: BLE001
-            msg, stats = f"harness could not run the case: {type(e).__name__}: {str(e)[:200]}", None
-        sup.executed += 1
-        if stats:
-            for k in BUDGET:
-                hist[k][stats.get(k, 0)] += 1
-            if "same_name_twice" in stats:
-                same_twice[stats["same_name_twice"]] += 1
-        if len(sup.samples) < 3:
-            sup.samples.append(case)
-        if msg:
-            sup.failures.append(Failure(sig={"kind": "program", "what": msg.split(":")[0][:50]}, case=case, detail=msg))
-            if len(sup.failures) >= 5:
-                break
+    if ctx.quick:
+        results = ((c, _safe_program_case(c)) for c in cases)
+        pool = None
+    else:
+        import multiprocessing as mp
+
+        pool = mp.get_context("fork").Pool(min(14, os.cpu_count() or 4))
+        results = zip(cases, pool.imap(_safe_program_case, cases, chunksize=16))
+    try:
+        for case, (msg, stats) in results:
+            sup.executed += 1
+            if stats:
+                for k in BUDGET:
+                    hist[k][stats.get(k, 0)] += 1
+                if "same_name_twice" in stats:
+                    same_twice[stats["same_name_twice"]] += 1
+            if len(sup.samples) < 3:
+                sup.samples.append(case)
+            if msg:
+                sup.failures.append(Failure(sig={"kind": "program", "what": msg.split(":")[0][:50]}, case=case, detail=msg))
+                if len(sup.failures) >= 5:
+                    break
+    finally:
+        if pool is not None:
+            pool.terminate()
     # cross-process names (one batch per seed): a slice of the programs plus the fusion corpus
     from harness.props import c14
 
-    xcases = [c for c in cases if c["cutsL"] == [0, 3, 6, 8]][: (50 if ctx.quick else 100000)]
+    xcases = [c for c in cases if c["cutsL"] == [0, 3, 6, 8]][: (50 if ctx.quick else 2500)]
     xcases += [{"kind": "query", "query": name} for name, _ in c14.real_queries() if "/n2/" in name or not ctx.quick]
     try:
         fails, n = cross_process_failures(xcases)
